@@ -171,6 +171,7 @@ class Run:
             gb = b
         flags = list(DEFAULT_CHECKS) if not s.get("no_default_checks") else []
         if s.get("no_conversion_check"): flags = [f for f in flags if f != "--conversion-check"]     # implementation-defined narrowing (not UB) is part of the code under test
+        if s.get("no_signed_overflow_check"): flags = [f for f in flags if f != "--signed-overflow-check"]   # cbmc 6.11 reports a NEGATIVE pointer difference inside one object as 'overflow on signed -' (probed: design-probes/ptrdiff_quirk.c); stated per run
         flags += s.get("cbmc", [])
         if d is not None and "--sat-solver" not in flags: flags += ["--sat-solver", "cadical"]
         if "--object-bits" not in flags: flags += ["--object-bits", "12"]
